@@ -131,7 +131,7 @@ Section StepsB1.
         * intros Hr'. destruct (O5 t' r' Hr') as (X1 & X2). assert (N : r' <> r) by (intros ->; rewrite Htid in X2; congruence). rewrite Eo by auto. auto.
     - apply JK_setv; auto. eapply JK_frame with (g := g) (a := a); eauto.
     - apply JR_setv; auto.
-      + cbn. intros r' Hr' [(ob & X)|[X|X]]; apply in_in_remove; auto; try congruence. intros ->. eapply N2; eauto.
+      + cbn. intros r' Hr' [(ob & X)|[X|X]]; apply in_in_remove; auto; try congruence.
       + eapply JR_frame with (g := g) (a := a); eauto.
         all: try solve [intros r'; destruct (Ef r') as (_ & X); exact X].
     - apply JW_setv; auto. eapply JW_frame with (g := g) (a := a); eauto.
